@@ -1310,8 +1310,8 @@ def run(ctx):
     import json
     ctx.notes['distinct_nontrivial'] = len({json.dumps(r, sort_keys=True) for r in recs})
     ctx.notes['by_driver'] = {d: sum(1 for r in recs if r['driver'] == d) for d in list(EXEC) + ['sequence']}
-    ctx.notes['tolerances'] = {'TolSum': '2^-40 x integer magnitude bound of the integral (computed in TLA+)',
-                               'TolEntries': '2^-34 absolute'}
+    ctx.notes['tolerances'] = {'TolSum': '2^-37 x integer magnitude bound of the integral (computed in TLA+)',
+                               'TolEntries': '2^-31 absolute'}
     return ctx.finish(rule=RULE, assumptions=[
         'meshes are straight-sided with integer (or dyadic) vertex coordinates; exact oracles exist for monomials of '
         'degree <= 4 (2-D) / 3 (3-D) on arbitrary regions and <= 6 on box-shaped domains; facet integrals only over '
@@ -1320,7 +1320,7 @@ def run(ctx):
         'mass-sum and invariance laws',
         'for non-parallelogram quadrilaterals the integrand times the Jacobian has one degree more per direction; '
         'the integration order is chosen accordingly',
-        'mode L: an error below 2^-40 of the magnitude of the integral is invisible',
+        'mode L: an error below 2^-37 of the magnitude of the integral is invisible',
         'TLC 1.8.0 and the CommunityModules Json module are trusted'],
         exhaustive=False)
 
